@@ -706,8 +706,13 @@ def gen_skip_template(rng: random.Random):
     tail = rng.choice([[("opt", ("group", ("choice", [("str", x) for x in stops]), None)), ("rep", ("id", "ANY", None))],
                        [("id", "w", None), ("rep", ("id", "ANY", None))],
                        [("id", "EOI", None)], []])
-    rules = {"r": (rng.choice(["@", "$", "@", ""]), ("seq", [skipper, *tail]) if tail else skipper),
+    rules = {"r": (rng.choice(["@", "$", "@", "", "!", "!"]), ("seq", [skipper, *tail]) if tail else skipper),
              "w": ("", ("choice", [("str", x) for x in stops])), **rules_extra}
+    if rules["r"][0] == "!":
+        # a non-atomic rule, reached from an atomic one: implicit trivia applies inside it again
+        rules["r0"] = (rng.choice(["@", "$"]), ("seq", [("str", "["), ("id", "r", None), ("opt", ("str", "]"))]))
+        rules["WHITESPACE"] = ("_", ("str", " "))
+        return rules
     if rng.random() < 0.2:
         a_, b_ = rng.choice(["a", "b", "-"]), rng.choice(["b", "c", ">"])
         rules = {"r": (rng.choice(["@", "$", "@"]), ("seq", [("rep", ("group", ("seq", [("not", ("id", "st3", None)), ("id", "ANY", None)]), None)),
